@@ -785,6 +785,12 @@ where
 	let context = w.get_private_context(keychain_mask, slate.id.as_bytes())?;
 	let mut excess_override = None;
 
+	// a late-locked send selects and reserves its inputs during finalization,
+	// until then there is nothing to lock
+	if context.late_lock_args.is_some() {
+		return Ok(());
+	}
+
 	// Don't do this multiple times
 	let tx = updater::retrieve_txs(
 		&mut *w,
